@@ -24,6 +24,8 @@ CHECKS = {
          'runtime monitor: online terminal-state checker (SGR/OSC 8 balance, no split sequences)', '5/C09'),
  'C10': ('exploration', 'stdout(A1..An) compared byte-for-byte with the concatenation of stdout(Ai) for sequences of complete file sections, all ordered pairs of (kind, ending) shapes in the thorough tier; repeated fresh-process runs for determinism',
          'runtime monitor: relational (concatenation / re-run) oracle over section histories', '5/C10'),
+ 'C13': ('exploration', 'sentinel placements over the source lattice (command line, [delta], GIT_CONFIG_PARAMETERS, custom features through every enabling mechanism, nested features, built-in feature defaults, --no-gitconfig) resolved by `delta --show-config` and compared with a resolver written from the documentation; every placement re-resolved in fresh processes for determinism',
+         'runtime monitor: reference resolver vs --show-config over an enumerated small-scope lattice, repeated runs for determinism', '5/C13'),
  'C14': ('exploration', 'rendered rows walked strictly against the generated section model: exactly one file header row per section with exactly the expected text (paths, label, arrow, mode/binary note) and one header row per hunk carrying the fragment',
          'runtime monitor: strict row-sequence oracle against the input reference model', '5/C14'),
  'C15': ('exploration', 'pairs of runs differing only in syntax theme (or in a file name of the same kind) compared cell by cell: characters, widths, backgrounds, attributes, links identical; foreground may differ only inside syntax-marked style slots',
